@@ -60,12 +60,9 @@ theorem rk23Iter_success_at_xend {σ : Type} (P : R23Params K n) (f : Rhs K n) (
         · rename_i hex
           injection h with h
           rw [← h]
-          show s.x + rk23Adjust P s = P.xend
+          show landX (rk23Last P s) P.xend s.x (rk23Adjust P s) = P.xend
           rcases Bool.or_eq_true _ _ ▸ hex with hl | he
-          · unfold rk23Adjust rk23Last at *
-            by_cases hc : Gen.Rk23.lastGuard s.x s.h P.xend P.posneg
-            · rw [if_pos hc]; ring
-            · simp [hc] at hl
+          · simp [landX, hl]
           · exact (num_eqb _ _).mp he
         · cases h
     · cases h
@@ -88,9 +85,10 @@ theorem rk23Loop_success_at_xend {σ : Type} (P : R23Params K n) (f : Rhs K n) (
       exact ih s' r h hs
 
 /-! ### RK4 -/
-theorem rk4_update_x (f : Nat → K → Vector K n → Vector K n) (y k1 k2 k3 k4 : Vector K n) (x h : K) :
-    (Gen.Rk4.update (f := f) (h := h) (x := x) (k1 := k1) (k2 := k2) (k3 := k3) (k4 := k4) (y := y)).x = x + h := by
-  simp [Gen.Rk4.update]
+theorem rk4_update_x (f : Nat → K → Vector K n → Vector K n) (y k1 k2 k3 k4 : Vector K n) (x h : K) (l : Bool) (e : K) :
+    (Gen.Rk4.update (f := f) (last := l) (xend := e) (h := h) (x := x) (k1 := k1) (k2 := k2) (k3 := k3) (k4 := k4) (y := y)).x
+      = landX l e x h := by
+  simp [Gen.Rk4.update, landX]
 
 /-- **C03, RK4.**  `Success` is reported only at `xend` (exact arithmetic): the last step is `xend − x`. -/
 theorem rk4Iter_success_at_xend {σ : Type} (P : R4Params K) (f : Rhs K n) (ob : Obs σ K n)
@@ -107,10 +105,7 @@ theorem rk4Iter_success_at_xend {σ : Type} (P : R4Params K) (f : Rhs K n) (ob :
         injection h with h
         rw [← h]
         rw [rk4_update_x]
-        unfold rk4Adjust at hl ⊢
-        by_cases hc : Gen.Rk4.lastGuard s.x s.h P.xend
-        · rw [if_pos hc]; ring
-        · rw [if_neg hc] at hl; cases hl
+        simp [landX, hl]
       · cases h
 
 theorem rk4Loop_success_at_xend {σ : Type} (P : R4Params K) (f : Rhs K n) (ob : Obs σ K n) :
